@@ -52,7 +52,10 @@ def _tables():
     }
     BIN_F = {
         "add": jnp.add, "sub": jnp.subtract, "mul": jnp.multiply,
-        "div_g": lambda a, b: a / (jnp.abs(b) + 0.5),
+        "div_g": lambda a, b: jnp.divide(a, jnp.abs(b) + 0.5),
+        "div_c": lambda a, b: jnp.divide(2.0, jnp.abs(a) + jnp.abs(b) + 0.5),
+        "pow_c": lambda a, b: jnp.power(2.0, jnp.clip(a + b, -3, 3)),
+        "clip_hi": lambda a, b: jnp.clip(a, -0.5, jnp.abs(b) + 0.25),
         "max": jnp.maximum, "min": jnp.minimum,
         "fmod_g": lambda a, b: jnp.fmod(a, jnp.abs(b) + 0.5),
         "rem_g": lambda a, b: jnp.remainder(a, jnp.abs(b) + 0.5),
@@ -94,7 +97,7 @@ UN_F_NAMES = ["sin", "cos", "tanh", "exp_c", "log_a", "sqrt_a", "floor", "ceil",
               "lax_round_even", "sign", "abs", "neg", "square", "relu", "gelu", "sigmoid", "softplus", "log_sigmoid", "silu", "elu",
               "leaky_relu", "erf", "relu6", "log1p_a", "expm1_c", "recip_g", "rsqrt_g", "softmax", "log_softmax", "cumsum", "arctan",
               "sinh_c", "cosh_c", "hard_tanh", "celu", "selu", "mish", "isfinite_f"]
-BIN_F_NAMES = ["add", "sub", "mul", "div_g", "max", "min", "fmod_g", "rem_g", "floordiv_g", "pow_g", "atan2", "hypot", "copysign", "logaddexp"]
+BIN_F_NAMES = ["add", "sub", "mul", "div_g", "max", "min", "fmod_g", "rem_g", "floordiv_g", "pow_g", "atan2", "hypot", "copysign", "logaddexp", "div_c", "pow_c", "clip_hi"]
 UN_I_NAMES = ["neg", "abs", "sign", "square", "invert"]
 BIN_I_NAMES = ["add", "sub", "mul", "max", "min", "floordiv_nz", "rem_nz", "fmod_nz", "and", "or", "xor", "shl", "shr"]
 CMP_NAMES = ["lt", "le", "eq", "ne", "gt", "ge"]
